@@ -29,7 +29,7 @@ type Knobs struct {
 	DropBlocksP float64
 	// Byzantine replicas as voters
 	ByzVote, ByzDoubleSend, ByzBadSigVotes bool
-	// Byzantine leader playbooks to choose from per view: "honest","split","partial","stale","forged","withhold","wrongphase","replayqc"
+	// Byzantine leader playbooks to choose from per view: "honest","split","partial","stale","forged","withhold","wrongphase","replayqc","mismatch"
 	Playbooks []string
 	// Silent: Byzantine keys do nothing at all (crash faults)
 	Silent bool
@@ -583,6 +583,44 @@ func (a *Omni) propose(ls *leadState, trigger *bft.Message) {
 		high := &lib.QuorumCertificate{Header: c.Header, BlockHash: c.BlockHash, ResultsHash: c.ResultsHash, ProposerKey: c.ProposerKey, Signature: c.Signature, Block: p.block, Results: p.results}
 		sendTo(mk(p, c.BlockHash, high), hon)
 		a.Acts["stale-justification"]++
+	case "mismatch":
+		// a proposal that its own justification does not certify: a genuine PROPOSE_VOTE certificate (the newest known, the
+		// one replicas are most likely locked on) attached to another block with the certified results, to the certified
+		// block with other results, or to a proposal that differs in both
+		var best *lib.QuorumCertificate
+		for _, c := range a.certs {
+			if c.Header.Phase == bft.ProposeVote && c.Header.Height == v.Height && a.blocks[string(c.BlockHash)] != nil {
+				if best == nil || best.Header.Less(c.Header) {
+					best = c
+				}
+			}
+		}
+		if best == nil {
+			p, h := fresh(fmt.Sprintf("byz%d", ls.m))
+			sendTo(mk(p, h, nil), hon)
+			return
+		}
+		orig := a.blocks[string(best.BlockHash)]
+		high := &lib.QuorumCertificate{Header: best.Header, BlockHash: best.BlockHash, ResultsHash: best.ResultsHash, ProposerKey: best.ProposerKey, Signature: best.Signature, Block: orig.block, Results: orig.results}
+		p2, h2 := fresh(fmt.Sprintf("byzM%d", ls.m))
+		variant := a.rng.Intn(3)
+		prop, hash := &proposal{block: p2.block, results: orig.results}, h2 // 0: other block, certified results
+		switch variant {
+		case 1: // certified block, other results
+			other := MakeResults(s.Keys[ls.m].PublicKey(), nil)
+			other.RewardRecipients.PaymentPercents[0].Percent = 99
+			prop, hash = &proposal{block: orig.block, results: other}, best.BlockHash
+		case 2: // both differ
+			prop = p2
+		}
+		m := &bft.Message{Header: v, Qc: &lib.QuorumCertificate{Header: ls.eqc.Header, Results: prop.results, ResultsHash: prop.results.Hash(), Block: prop.block, BlockHash: hash,
+			ProposerKey: s.PubKeys[ls.m], Signature: ls.eqc.Signature}, HighQc: high, RcBuildHeight: v.RootHeight}
+		_ = m.Sign(s.Keys[ls.m])
+		if variant != 1 {
+			a.blocks[string(hash)] = prop
+		}
+		sendTo(mustMarshal(m), hon)
+		a.Acts[fmt.Sprintf("mismatched-justification-%d", variant)]++
 	case "forged":
 		// fresh value "justified" by a certificate the Byzantine keys alone signed, with a huge round number
 		p, h := fresh(fmt.Sprintf("byzF%d", ls.m))
